@@ -486,28 +486,24 @@ impl<K: CacheKey + 'static> AsyncCache<K> for MemoryCache<K> {
 
         let entry = Arc::new(MemoryCacheEntryInner::new(value, size_bytes, Some(ttl)));
 
+        // Account for the new entry before it becomes visible in the map: a concurrent
+        // removal or expiry of it then never drives the counters below the real contents
+        // (a wrapped entry_count makes the next put evict the whole cache).
+        self.entry_count.fetch_add(1, Ordering::Relaxed);
+        self.memory_usage
+            .fetch_add(size_bytes as u64, Ordering::Relaxed);
+
         // Insert or update entry
         if let Some(old_entry) = self.storage.insert(key, entry) {
             #[cfg(feature = "verif-hooks")]
             crate::verif_hooks::sched_point("mem.put.after_insert");
-            // Updating existing entry - adjust memory usage
-            let old_size = old_entry.size_bytes as u64;
-            let new_size = size_bytes as u64;
-
-            if new_size > old_size {
-                self.memory_usage
-                    .fetch_add(new_size - old_size, Ordering::Relaxed);
-            } else {
-                self.memory_usage
-                    .fetch_sub(old_size - new_size, Ordering::Relaxed);
-            }
+            // Replaced an existing entry - give back its share
+            self.entry_count.fetch_sub(1, Ordering::Relaxed);
+            self.memory_usage
+                .fetch_sub(old_entry.size_bytes as u64, Ordering::Relaxed);
         } else {
             #[cfg(feature = "verif-hooks")]
             crate::verif_hooks::sched_point("mem.put.after_insert");
-            // New entry
-            self.entry_count.fetch_add(1, Ordering::Relaxed);
-            self.memory_usage
-                .fetch_add(size_bytes as u64, Ordering::Relaxed);
         }
 
         self.metrics.record_put(size_bytes, start_time.elapsed());
